@@ -7,12 +7,14 @@ BUDGET = {'quick': 60, 'thorough': 600}
 RULE = ('merge/embed/mask/forwards over pairs and triples of the universe including role-inconsistent ones, n up to len+2, '
         'foreign, duplicate and positional-only names, all flags; the monitor classifies the exception type, re-validates '
         'every result, and re-runs each call with downgraded (plain inspect.Signature) inputs under '
-        'warnings.catch_warnings(record=True). Non-trivial: every evaluated call; distinct by (op, inputs, arguments).')
+        'warnings.catch_warnings(record=True); retrieval side: sigtools.signature over generated forwarding programs, a share of '
+        'which cannot be declared (mask/embed/merge raise inside discovery): the outermost retrieval must return. '
+        'Non-trivial: every evaluated call; distinct by (op, inputs, arguments).')
 ASSUMPTIONS = ['role-consistent = every shared name has the same kind and positional index in all inputs']
 
 
 def monitors(ctx):
-    return [mon_alg.WellFormed(ctx)]
+    return [mon_alg.WellFormed(ctx), mon_alg.RetrievalFallback(ctx)]
 
 
 def run(ctx):
@@ -31,9 +33,18 @@ def run(ctx):
     slot(1); w_alg.drive_embed(ctx, ctx.tier)
     slot(2); w_alg.drive_mask(ctx, ctx.tier, dup=True, include_posonly=True)
     slot(3); w_alg.drive_forwards(ctx, ctx.tier)
+    # retrieval side: generated forwarding programs (a share of them written so that the
+    # declaration of the call fails in mask or embed, or several calls do not merge)
+    ctx.floor('C15.retrievals_with_algebra_failure_inside', 30)
+    slot(4)
+    from .. import w_auto
+    w_auto.run(ctx, ('C15',), {'quick': 2500, 'thorough': 60000}[ctx.tier], label='forwarding programs')
     ctx.deadline = saved
 
 
 def replay(ctx, rec):
     monitor.enable(*monitors(ctx))
+    if rec.get('workload') == 'auto':
+        from .. import w_auto
+        return w_auto.replay(ctx, rec, ('C15',))
     w_alg.replay(ctx, rec)
